@@ -234,16 +234,13 @@ theorem C16_invalid_rejected_alike (env : Env) (pid : Nat) (s : Str) :
     variables `VARLINK_ADDRESS=unix:<socket path>`, `LISTEN_FDS=1`,
     `LISTEN_FDNAMES=varlink`, `LISTEN_PID=<its own pid>` — whatever the parent's
     environment held under those names, whatever descriptor number the listener
-    had in the parent — except descriptor 1 while descriptor 2 is open, see
-    `C16_spawn_recipe_listener_at_1_counterexample` — for every pid below 2^64;
-    consequently a varlink server in that process adopts descriptor 3 for the
-    advertised address.  (A partial statement in one more respect: the descriptor
-    table handed to `runRecipe` is the caller's; that `Command::spawn` adds a
-    close-on-exec status channel of its own, which `dup2(2, 1)` can leak, is
-    `C16_spawn_status_channel_counterexample`.) -/
+    had in the parent (0, 1, 2 when the caller's standard descriptors are closed,
+    3, or higher) and whatever else the parent's descriptor table holds, for every
+    pid below 2^64; consequently a varlink server in that process adopts
+    descriptor 3 for the advertised address.  (Since 2afad3a; before, the recipe
+    began with `dup2(2, 1)`: see the two `C16_history_…` theorems.) -/
 theorem C16_spawn_recipe (cmd sockPath : Str) (fd pid : Nat) (parentEnv : Env) (parentFds : FdTable)
-    (listener : FdEntry) (hfd : fd ≠ 1 ∨ fdGet 2 parentFds = none) (hl : fdGet fd parentFds = some listener)
-    (hpid : pid < usizeBound) :
+    (listener : FdEntry) (hl : fdGet fd parentFds = some listener) (hpid : pid < usizeBound) :
     let r := execRecipe cmd sockPath fd
     r.program = ['s', 'h'] ∧ r.args = [['-', 'c'], shLinePrefix ++ cmd] ∧
     ∃ c, runRecipe r parentEnv parentFds pid = some c ∧
@@ -271,17 +268,15 @@ theorem C16_spawn_recipe (cmd sockPath : Str) (fd pid : Nat) (parentEnv : Env) (
       simp only [r, execRecipe]
       by_cases h3 : fd = 3
       · subst h3
-        simp only [ne_eq, not_true_eq_false, if_false, List.foldl_cons, List.foldl_nil]
-        have hkeep : fdGet 3 (applyFdAct parentFds (.dup2 2 1)) = some listener := by
-          rw [fdGet_dup2_other _ 2 1 3 (by decide)]; exact hl
-        exact fdGet_clearCloexec _ 3 listener hkeep
-      · simp only [ne_eq, h3, not_false_eq_true, if_true, List.foldl_cons, List.foldl_nil]
-        have hkeep : fdGet fd (applyFdAct parentFds (.dup2 2 1)) = some listener := by
-          rcases hfd with h1 | h2
-          · rw [fdGet_dup2_other _ 2 1 fd h1]; exact hl
-          · simp only [applyFdAct, h2]; exact hl
+        simp only [ne_eq, not_true_eq_false, if_false, List.cons_append, List.nil_append, List.foldl_cons,
+          List.foldl_nil]
+        rw [fdGet_dup2IfInheritable_other _ 2 1 3 (by decide)]
+        exact fdGet_clearCloexec _ 3 listener hl
+      · simp only [ne_eq, h3, not_false_eq_true, if_true, List.cons_append, List.nil_append, List.foldl_cons,
+          List.foldl_nil]
+        rw [fdGet_dup2IfInheritable_other _ 2 1 3 (by decide)]
         rw [fdGet_close_other _ fd 3 (fun e => h3 e.symm)]
-        exact fdGet_dup2_dst _ fd 3 listener hkeep h3
+        exact fdGet_dup2_dst _ fd 3 listener hl h3
     · rfl
   · simp [envGet]
   · simp [envGet, envOverride, r, execRecipe, kListenPid, kVarlinkAddress, kListenFds]
@@ -332,32 +327,38 @@ example : ∃ c, runRecipe (execRecipe ['s', 'v', 'c'] ['/', 't'] 5) exParentEnv
     envGet kListenPid c.env = some (decimal 4242) ∧ activationListener c.env c.pid = some 3 ∧
     envGet kListenPid exParentEnv = some ['1'] := by
   have h := C16_spawn_recipe ['s', 'v', 'c'] ['/', 't'] 5 4242 exParentEnv (exParentFds 5) ⟨7, true⟩
-    (Or.inl (by decide)) (by decide) (by decide)
+    (by decide) (by decide)
   obtain ⟨_, _, c, hc, _, _, _, hp, _, _, _, _, ha, _⟩ := h
   exact ⟨c, hc, hp, ha, by decide⟩
 
-/-- **dropped hypothesis: the listener is not descriptor 1 while descriptor 2 is open** — a
-    caller whose stdout is closed gets the listener as descriptor 1; `pre_exec` starts with
-    `dup2(2, 1)`, which replaces it by stderr before it is moved: the child's descriptor 3 is
-    stderr's object (102), not the listening socket (7) -/
-theorem C16_spawn_recipe_listener_at_1_counterexample :
+/-- the recipe as it was before 2afad3a: `dup2(2, 1)` first, unconditionally -/
+def oldExecRecipe (cmd sockPath : Str) (fd : Nat) : Recipe :=
+  { execRecipe cmd sockPath fd with
+    preExec := .dup2 2 1 :: (if fd ≠ 3 then [.dup2 fd 3, .close fd] else [.clearCloexec 3]) }
+
+/-- **history (fixed by 2afad3a, C16-F3 a)**: with the old recipe a caller whose stdout is closed
+    lost the listener — it is descriptor 1, `dup2(2, 1)` replaced it by stderr before it was
+    moved, the child's descriptor 3 was stderr's object (102); with the current recipe the child
+    gets the listening socket (7) and its stdout is the caller's stderr -/
+theorem C16_history_listener_at_1_before_2afad3a :
     let parentFds : FdTable := [(0, ⟨100, false⟩), (2, ⟨102, false⟩), (1, ⟨7, true⟩)]
-    (runRecipe (execRecipe ['s'] ['/', 't'] 1) [] parentFds 4242).map (fun c => (fdGet 3 c.fds, fdGet 1 c.fds)) =
+    (runRecipe (oldExecRecipe ['s'] ['/', 't'] 1) [] parentFds 4242).map (fun c => (fdGet 3 c.fds, fdGet 1 c.fds)) =
       some (some ⟨102, false⟩, none) ∧
-    -- with descriptor 2 closed as well, `dup2(2, 1)` fails and the listener survives
-    (runRecipe (execRecipe ['s'] ['/', 't'] 1) [] [(0, ⟨100, false⟩), (1, ⟨7, true⟩)] 4242).map
-      (fun c => fdGet 3 c.fds) = some (some ⟨7, false⟩) := by
+    (runRecipe (execRecipe ['s'] ['/', 't'] 1) [] parentFds 4242).map (fun c => (fdGet 3 c.fds, fdGet 1 c.fds)) =
+      some (some ⟨7, false⟩, some ⟨102, false⟩) := by
   decide
 
-/-- **dropped assumption: descriptor 2 is the caller's stderr** — with 0, 1 and 2 closed the
-    listener is descriptor 0 and `Command::spawn` puts its close-on-exec status channel on 1
-    (read end, closed in the child) and 2 (write end, object 201): `dup2(2, 1)` gives the child a
-    copy of the write end that is NOT close-on-exec, so it survives the exec and `spawn` in the
-    parent does not return before the service exits -/
-theorem C16_spawn_status_channel_counterexample :
+/-- **history (fixed by 2afad3a, C16-F3 b)**: with 0, 1 and 2 closed the listener is descriptor 0
+    and `Command::spawn` puts its close-on-exec status channel on 1 (read end, closed in the
+    child) and 2 (write end, object 201); the old recipe's `dup2(2, 1)` gave the child a copy of
+    the write end that was not close-on-exec, so `spawn` in the parent did not return before the
+    service exited; the current recipe leaves a close-on-exec descriptor 2 alone -/
+theorem C16_history_status_channel_before_2afad3a :
     let atFork : FdTable := [(0, ⟨7, true⟩), (2, ⟨201, true⟩)]
-    (runRecipe (execRecipe ['s'] ['/', 't'] 0) [] atFork 4242).map (fun c => (fdGet 3 c.fds, fdGet 1 c.fds, fdGet 2 c.fds)) =
-      some (some ⟨7, false⟩, some ⟨201, false⟩, none) := by
+    (runRecipe (oldExecRecipe ['s'] ['/', 't'] 0) [] atFork 4242).map
+      (fun c => (fdGet 3 c.fds, fdGet 1 c.fds, fdGet 2 c.fds)) = some (some ⟨7, false⟩, some ⟨201, false⟩, none) ∧
+    (runRecipe (execRecipe ['s'] ['/', 't'] 0) [] atFork 4242).map
+      (fun c => (fdGet 3 c.fds, fdGet 1 c.fds, fdGet 2 c.fds)) = some (some ⟨7, false⟩, none, none) := by
   decide
 
 /-- non-vacuity of `C16_spawn_recipe` and of the activation matrix: concrete
